@@ -1691,8 +1691,27 @@ class MessageStr(str):
     __getitem__ = _no
     __contains__ = _no
     __hash__ = str.__hash__
-    encode = _no
     split = _no
+
+    def encode(self, *a, **k):
+        return MessageBytes(b"<?>")
+
+
+class MessageBytes(bytes):
+    """bytes counterpart of MessageStr (an encoded message text): may be passed on, not inspected"""
+
+    def _no(self, *a, **k):
+        raise Unsupported("content of a byte string formatted from symbolic data")
+
+    __eq__ = _no
+    __ne__ = _no
+    __getitem__ = _no
+    __contains__ = _no
+    __hash__ = bytes.__hash__
+    split = _no
+
+    def decode(self, *a, **k):
+        return MessageStr("<?>")
 
 
 class SymIter:
